@@ -322,7 +322,9 @@ def make_plan(seed: int, tier: str, index: int) -> dict[str, Any]:
                     for kk in ("newline", "encoding", "io"):
                         op.pop(kk, None)
                     op.update({"via": "file", "reader": "simtext"})
-                    op["reader_fault"] = {"at": f.choice([1, 1, 2]), "exc": exc}
+                    op["reader_fault"] = {"at": f.choice([1, 1, 2]),
+                                          "exc": f.choice([exc, "InterruptedError", "TimeoutError", "BlockingIOError"]),
+                                          "consume": f.choice([0, 0, 1, 17, 200, 5000])}
     elif sub == "cache_clear":
         knobs["cache_clear"] = sorted({(ci, k) for ci, k, _ in f.sample(all_ops, min(len(all_ops), f.randint(1, 4)))})
         knobs["cache_clear"] = [list(x) for x in knobs["cache_clear"]]
@@ -343,6 +345,16 @@ def make_plan(seed: int, tier: str, index: int) -> dict[str, Any]:
         knobs["retain_results"] = False
         schedule = {"mode": "writes", "seed": s.getrandbits(32), "p": s.choice([0.3, 0.6, 0.9]),
                     "hold": s.choice([1000, 4000, 8000])}
+    if sub == "long" and p.random() < 0.5:
+        # the caller keeps every exception for an error report, and the process may hold only a
+        # few files open at a time: a parse that fails must not leave its file open
+        knobs["retain_errors"] = True
+        knobs["max_open_files"] = p.choice([4, 8, 12])
+        failing = [c for c in corpus if c["kind"] != "ok"] or [corpus[-1]]
+        for ops in clients:
+            for _ in range(p.randint(8, 16)):
+                ops.insert(p.randint(0, len(ops)), {"op": "parse", "text": p.choice(failing)["id"],
+                                                    "via": "path", "select": None})
     if sub == "long":
         knobs["retain_results"] = False
         # allocator shifts between the parses of a long history: which freed address the next
@@ -594,6 +606,9 @@ def execute(plan: dict[str, Any]) -> dict[str, Any]:
     n_ops = 0
     texts_used = set()
     shift_keep: dict[int, Any] = {}
+    kept_errors: list[BaseException] = []
+    if (plan.get("knobs") or {}).get("max_open_files"):
+        fs.max_open = int(plan["knobs"]["max_open_files"])
 
     def body_for(ci: int) -> Any:
         ops = plan["clients"][ci]
@@ -633,7 +648,8 @@ def execute(plan: dict[str, Any]) -> dict[str, Any]:
                         "at": op["sel_fault"]["at"], "exc_obj": cf_exc}}}
                 elif op.get("reader_fault"):
                     cf_kind, cf_exc = "reader", make_abort_exc(op["reader_fault"]["exc"])
-                    op_rt = {**op, "reader_fault": {"at": op["reader_fault"]["at"], "exc_obj": cf_exc}}
+                    op_rt = {**op, "reader_fault": {"at": op["reader_fault"]["at"], "exc_obj": cf_exc,
+                                                    "consume": op["reader_fault"].get("consume", 0)}}
                 elif op.get("log_fault"):
                     cf_kind, cf_exc = "log", make_abort_exc(op["log_fault"]["exc"])
                 if cf_kind:
@@ -679,6 +695,8 @@ def execute(plan: dict[str, Any]) -> dict[str, Any]:
                     err = e
                 sched.end_op(client)
                 n_ops += 1
+                if err is not None and (plan.get("knobs") or {}).get("retain_errors"):
+                    kept_errors.append(err)
                 with sched.atomic(client):
                     log = list(client.log)
                     cf_fired = False
